@@ -796,6 +796,15 @@ func randPred(r *rand.Rand, chunks []*rag.Chunk) pred {
 		n := r.Intn(30)
 		return pred{fmt.Sprintf("FilterByMaxTokens(%d)", n), func(cc *rag.ChunkCollection) *rag.ChunkCollection { return cc.FilterByMaxTokens(n) }, func(ch *rag.Chunk) bool { return ch.Metadata.EstimatedTokens <= n }}
 	case 9:
+		if r.Intn(4) == 0 {
+			// letters whose other case has another UTF-8 length (Kelvin sign / k, Ohm
+			// sign / ω, Angstrom sign / å, capital sharp s / ß): lower-casing and simple
+			// case folding agree on them, so "case-insensitive" has one meaning
+			kw := []string{"k", "K", "ω", "Ω", "å", "Å", "ß", "ẞ", "273 k", "5 kω"}[r.Intn(10)]
+			low := strings.ToLower(kw)
+			return pred{"Search(" + kw + ")", func(cc *rag.ChunkCollection) *rag.ChunkCollection { return cc.Search(kw) },
+				func(ch *rag.Chunk) bool { return strings.Contains(strings.ToLower(ch.Text), low) }}
+		}
 		kw := plainWords[r.Intn(len(plainWords))]
 		switch r.Intn(3) {
 		case 0:
@@ -803,9 +812,9 @@ func randPred(r *rand.Rand, chunks []*rag.Chunk) pred {
 		case 1:
 			kw = kw[:1+r.Intn(len(kw))]
 		}
-		low := asciiLower(kw)
+		low := strings.ToLower(kw)
 		return pred{"Search(" + kw + ")", func(cc *rag.ChunkCollection) *rag.ChunkCollection { return cc.Search(kw) },
-			func(ch *rag.Chunk) bool { return strings.Contains(asciiLower(ch.Text), low) }}
+			func(ch *rag.Chunk) bool { return strings.Contains(strings.ToLower(ch.Text), low) }}
 	default:
 		m := 2 + r.Intn(3)
 		k := r.Intn(m)
@@ -1009,7 +1018,7 @@ func Run(c *fw.Ctx) {
 		"an absent JSON member / empty CSV cell equals the zero value; list-valued metadata in one CSV cell is compared only when no element contains ',', '[' or ']'; Level is accepted by name or number; BBox is not part of any export and not compared",
 		"column names are distinct from each other and from the fixed column set; the delimiter is the configured CSVDelimiter",
 		"a header-less CSV export is compared with the export of the same configuration with header (same records minus the first)",
-		"Search is compared on ASCII keywords with ASCII case folding; texts contain no character whose lower case is ASCII")
+		"Search is compared on ASCII keywords with ASCII case folding, and on the letters K (Kelvin sign), Ω (Ohm sign), Å (Angstrom sign), ẞ and their lower-case forms, for which lower-casing and simple case folding agree; other characters whose case mapping is ambiguous (dotted / dotless i) are not generated")
 	n := c.N(1200, 120000)
 	c.Parallel(n, func(i int) { runCase(c, i) })
 }
